@@ -23,15 +23,40 @@ def _alarm(signum, frame):
 FLIP = [0]      # orientation variant used by mk_graph (set per job): the definitions do not depend on how an edge is written
 
 
+HIST = [False]  # history variant used by mk_graph: the Graph object is used for constraints while it is still being built
+
+
+def _orient(job):
+    FLIP[0] = job.get("flip", 0)
+    HIST[0] = bool(job.get("hist", (job.get("id", 0) + job.get("flip", 0)) % 2))
+
+
 def mk_graph(g):
-    """the real Graph object; with FLIP[0] = 1 every edge, with 2 every other edge is added as (larger, smaller)"""
+    """the real Graph object; with FLIP[0] = 1 every edge, with 2 every other edge is added as (larger, smaller).
+    With HIST[0] the object is first used (on scratch solvers, with both encodings) when only half of its edges are
+    there: a Graph is a container, what was asked about an earlier state of it must not leak into a later use."""
     G = cg.Graph(g["n"])
+    half = (len(g["edges"]) + 1) // 2 if HIST[0] and len(g["edges"]) >= 2 else -1
     for i, (u, v) in enumerate(g["edges"]):
+        if i == half:
+            _use_unfinished(G)
         if FLIP[0] == 1 or (FLIP[0] == 2 and i % 2 == 0):
             G.add_edge(max(u, v), min(u, v))
         else:
             G.add_edge(u, v)
     return G
+
+
+def _use_unfinished(G):
+    for prim in (True, False):
+        s2 = Solver()
+        cg.active_vertices_connected(s2, [s2.bool_var() for _ in range(G.num_vertices)], G, use_graph_primitive=prim)
+        s2 = Solver()
+        cg.active_edges_single_cycle(s2, [s2.bool_var() for _ in range(len(G))], G, use_graph_primitive=prim)
+        s2 = Solver()
+        cg.division_connected_variable_groups_with_borders(s2, group_size=None, is_border=[s2.bool_var() for _ in range(len(G))],
+                                                           graph=G, use_graph_primitive=prim)
+    G.line_graph()
 
 
 def bits_of(p, n):
@@ -129,7 +154,7 @@ def call_conn(s, obj, flags_arg, acyclic, prim):
 
 def run_conn(job):
     """job: obj, acyclic, form, patterns, expects -> list of mismatches"""
-    FLIP[0] = job.get("flip", 0)
+    _orient(job)
     obj, acyclic, form = job["obj"], job["acyclic"], job["form"]
     n = obj["graph"]["n"]
     shape = (obj["h"], obj["w"]) if obj["kind"] == "grid" else None
@@ -156,7 +181,7 @@ def run_conn(job):
 
 
 def emit_conn(job):
-    FLIP[0] = job.get("flip", 0)
+    _orient(job)
     obj, acyclic, form = job["obj"], job["acyclic"], job["form"]
     n = obj["graph"]["n"]
     shape = (obj["h"], obj["w"]) if obj["kind"] == "grid" else None
@@ -197,7 +222,7 @@ def _call_helper(s, job, arg):
 
 def run_flags(job):
     """families whose only inputs are n boolean flags and whose only output is the verdict"""
-    FLIP[0] = job.get("flip", 0)
+    _orient(job)
     obj, form = job["obj"], job["form"]
     n = job["nflags"]
     shape = (obj["h"], obj["w"]) if (obj["kind"] == "grid" and not job.get("as_graph")) else None
@@ -250,7 +275,7 @@ def _fix_ids(s, ids, bits):
 
 def run_cycle(job):
     """z3 route of active_edges_single_cycle: verdict and, through solve(), the returned array"""
-    FLIP[0] = job.get("flip", 0)
+    _orient(job)
     obj, form = job["obj"], job["form"]
     m = len(obj["graph"]["edges"])
     npts = obj["graph"]["n"]
@@ -294,7 +319,7 @@ def run_cycle(job):
 
 def emit_cycle(job):
     """native-primitive program of single_cycle / single_path"""
-    FLIP[0] = job.get("flip", 0)
+    _orient(job)
     obj, form, which = job["obj"], job["form"], job["which"]
     fn = cg.active_edges_single_cycle if which == "cycle" else cg.active_edges_single_path
     s = Solver()
@@ -371,11 +396,11 @@ def _div_setup(s, job):
 
 
 def run_div(job):
-    FLIP[0] = job.get("flip", 0)
+    _orient(job)
     n, R = job["obj"]["graph"]["n"], job["R"]
     out = []
     old = _cfgmod.config.use_graph_primitive
-    _cfgmod.config.use_graph_primitive = False
+    _cfgmod.config.use_graph_primitive = job.get("prim", False)
     try:
         for L, exp in zip(job["patterns"], job["expects"]):
             s = Solver()
@@ -396,7 +421,7 @@ def run_div(job):
 
 
 def emit_div(job):
-    FLIP[0] = job.get("flip", 0)
+    _orient(job)
     old = _cfgmod.config.use_graph_primitive
     _cfgmod.config.use_graph_primitive = True
     s = Solver()
@@ -439,7 +464,7 @@ def _sizes_arg(s, job, n):
 
 
 def run_groups(job):
-    FLIP[0] = job.get("flip", 0)
+    _orient(job)
     obj = job["obj"]
     n = obj["graph"]["n"]
     out = []
@@ -509,13 +534,13 @@ def _border_setup(s, job, prim):
 
 
 def run_borders(job):
-    FLIP[0] = job.get("flip", 0)
+    _orient(job)
     m = len(job["obj"]["graph"]["edges"])
     out = []
     for p, exp in zip(job["patterns"], job["expects"]):
         s = Solver()
         try:
-            bits, fixed = _border_setup(s, job, False)
+            bits, fixed = _border_setup(s, job, job.get("prim", False))
             for b, val in zip(bits, bits_of(p, m)):
                 s.ensure(s.variables[b["var"]] == (val != b["neg"]))
             for f in fixed:
@@ -531,7 +556,7 @@ def run_borders(job):
 
 
 def emit_borders(job):
-    FLIP[0] = job.get("flip", 0)
+    _orient(job)
     s = Solver()
     try:
         bits, fixed = _border_setup(s, job, True)
@@ -549,6 +574,37 @@ def _cross_call(s, fr, job, prim):
     return cg.active_edges_connected_crossable(s, fr, single_cycle=job["single_cycle"], use_graph_primitive=prim)
 
 
+def _cross_frame(s, h, w, form, bits):
+    """the frame whose segments carry the pattern: fresh variables pinned afterwards ("vars"), Python constants
+    ("const": a drawing that is given), or every other segment a constant ("mixed": given segments plus unknowns);
+    segment k is the k-th edge in the order of cspuz.graph._from_grid_frame"""
+    if form == "vars":
+        fr = BoolGridFrame(s, h, w)
+        edges, _ = cg._from_grid_frame(fr)
+        return fr, list(zip(edges, bits))
+    hor = [[None] * w for _ in range(h + 1)]
+    ver = [[None] * (w + 1) for _ in range(h)]
+    pins, k = [], 0
+    for y in range(h + 1):
+        for x in range(w + 1):
+            for vertical in (True, False):
+                if (vertical and y == h) or (not vertical and x == w):
+                    continue
+                if form == "const" or k % 2 == 0:
+                    item = bool(bits[k])
+                else:
+                    item = s.bool_var()
+                    pins.append((item, bits[k]))
+                if vertical:
+                    ver[y][x] = item
+                else:
+                    hor[y][x] = item
+                k += 1
+    fr = BoolGridFrame(s, h, w, horizontal=BoolArray2D([i for row in hor for i in row], (h + 1, w)),
+                       vertical=BoolArray2D([i for row in ver for i in row], (h, w + 1)))
+    return fr, pins
+
+
 def run_cross(job):
     obj = job["obj"]
     h, w = obj["h"], obj["w"]
@@ -559,13 +615,12 @@ def run_cross(job):
         s = Solver()
         why = ""
         try:
-            fr = BoolGridFrame(s, h, w)
-            edges, _ = cg._from_grid_frame(fr)
-            ids = [e.id for e in edges]
-            passed, cross = _cross_call(s, fr, job, False)
+            fr, pins = _cross_frame(s, h, w, job.get("frameform", "vars"), bits_of(p, m))
+            passed, cross = _cross_call(s, fr, job, job.get("prim", False))
             if tuple(passed.shape) != (h + 1, w + 1) or tuple(cross.shape) != (h + 1, w + 1):
                 why = f"returned shapes {passed.shape} {cross.shape}"
-            _fix_ids(s, ids, bits_of(p, m))
+            for v, b in pins:
+                s.ensure(v == b)
             pv, cv = list(passed.flatten()), list(cross.flatten())
             s.add_answer_key(pv, cv)
             got = solve(s, call="solve")
